@@ -134,6 +134,12 @@ NoEquivocation == \A n \in Honest : \A a, b \in signed[n] : (a[1] = b[1] /\ a[1]
 HigherViewOnlyByCertificate ==
   \A n \in Honest : \A p \in nodes[n].ns.pp : (p.v > 0 /\ p.s # n) =>
      \E m \in net \cup ByzMsgs : m.k = "NV" /\ m.v = p.v /\ m.pp.x = p.x /\ ValidNewView(m, n, H)
+\* the lock of LHAbstract.tla (Locked) read off the node-level state: once correct members that signed COMMIT(v, x) reach a quorum together
+\* with the Byzantine member, no correct member signs a proposal or a PREPARE for another block in a higher view
+LockedNodeLevel ==
+  \A n0 \in Honest : \A c \in signed[n0] : c[1] = "C" =>
+     (IsQuorum(H, {n \in Honest : <<"C", c[2], c[3]>> \in signed[n]} \cup {B}) =>
+        \A n \in Honest : \A t \in signed[n] : (t[1] \in {"P", "PP", "NV"} /\ t[2] > c[2]) => t[3] = c[3])
 TypeOK == bz \in 0..ByzBudget
 \* reachability goals: TLC's counterexample to "never" is a shortest witness behaviour, replayed into the real code
 NeverCommitInHigherView == \A n \in Honest : ~(decided[n] # "-" /\ nodes[n].ns.view > 0 /\ nodes[n].ns.h = 1 /\ nodes[n].ns.committed)
